@@ -424,19 +424,34 @@ func body(s *simrt.Sim) {
 
 	left := s.Quiesce()
 	w.checkOrder()
-	// at quiescence every started worker has returned
+	// at quiescence every started worker has returned. A worker that was registered during shutdown and is never
+	// cancelled also keeps stopWorkers (and with it every worker of a lower order) waiting: it is reported first.
+	var running []*inst
 	for _, in := range w.insts {
-		if in.started != 0 && in.returned == 0 {
-			if in.kind == kPeerWait && in.cancelSeen != 0 {
-				s.Fail("equal-order", "peer-not-cancelled"+w.suffix(in), "worker %s#%d (order %d) saw its cancel at step %d but an initial worker of the same order was never cancelled; unfinished: %v", in.name, in.id, in.order, in.cancelSeen, left)
-			}
-			what := "never-cancelled"
-			if in.cancelAt != 0 {
-				what = "cancelled-but-running"
-			}
-			s.Fail("left-running", what+w.suffix(in), "worker %s#%d (order %d, %s, registered in [%d,%d] = %v, started at %d, cancel seen at %d) has not returned at quiescence; first shutdown call at step %d, ShutdownAndWait returned at %d; unfinished: %v",
-				in.name, in.id, in.order, kindNames[in.kind], in.regInv, in.regRet, in.err, in.started, in.cancelSeen, w.firstShutInv, w.sawRet, left)
+		if in.started != 0 && in.returned == 0 && w.late(in) {
+			running = append(running, in)
 		}
+	}
+	lateRunning := len(running) > 0
+	for _, in := range w.insts {
+		if in.started != 0 && in.returned == 0 && !w.late(in) {
+			running = append(running, in)
+		}
+	}
+	for _, in := range running {
+		suffix := w.suffix(in)
+		if lateRunning {
+			suffix = ":registered-during-shutdown"
+		}
+		if in.kind == kPeerWait && in.cancelSeen != 0 {
+			s.Fail("equal-order", "peer-not-cancelled"+suffix, "worker %s#%d (order %d) saw its cancel at step %d but an initial worker of the same order was never cancelled; unfinished: %v", in.name, in.id, in.order, in.cancelSeen, left)
+		}
+		what := "never-cancelled"
+		if in.cancelAt != 0 {
+			what = "cancelled-but-running"
+		}
+		s.Fail("left-running", what+suffix, "worker %s#%d (order %d, %s, registered in [%d,%d] = %v, started at %d, cancel seen at %d) has not returned at quiescence; first shutdown call at step %d, ShutdownAndWait returned at %d; unfinished: %v",
+			in.name, in.id, in.order, kindNames[in.kind], in.regInv, in.regRet, in.err, in.started, in.cancelSeen, w.firstShutInv, w.sawRet, left)
 	}
 	hx.Stuck(s, "termination", left, nil)
 }
